@@ -15,6 +15,7 @@ package main
 //	x.edpair seed32     ed25519.NewKeyFromSeed, both conversions, X25519(xsk, Basepoint) -> ok xsk xpk xpk'
 
 import (
+	"fmt"
 	"math/big"
 
 	"github.com/oasisprotocol/curve25519-voi/curve"
@@ -154,6 +155,70 @@ func x1PickK(g *Gen) (string, []byte) {
 	return "k.random", g.Bytes(32)
 }
 
+// x1CraftResult returns a (scalar bytes, u bytes) pair whose X25519 output is a string of the given pattern.
+// r is drawn from the pattern until it is the u-coordinate of a point P of the prime-order subgroup (decode on the
+// Edwards side: y = (u-1)/(u+1); [L]P = O); then for a random clamped scalar s the input is u([s^-1 mod L] P).
+func x1CraftResult(g *Gen, pat int) (k, u []byte, ok bool) {
+	for try := 0; try < 200; try++ {
+		r := make([]byte, 32)
+		switch pat {
+		case 0: // XOR of the four 64-bit words is zero
+			copy(r, g.Bytes(24))
+			r[23] &= 0x7f
+			for i := 0; i < 8; i++ {
+				r[24+i] = r[i] ^ r[8+i] ^ r[16+i]
+			}
+		case 1: // XOR of the eight 32-bit words is zero
+			copy(r, g.Bytes(28))
+			for i := 0; i < 4; i++ {
+				for j := 0; j < 7; j++ {
+					r[28+i] ^= r[4*j+i]
+				}
+			}
+		case 2: // bytes sum to 0 mod 256
+			copy(r, g.Bytes(31))
+			var sm byte
+			for _, b := range r[:31] {
+				sm += b
+			}
+			r[31] = -sm
+		case 3: // a single bit
+			r[g.Intn(32)] = 1 << uint(g.Intn(8))
+		case 4: // only the top 64-bit word non-zero
+			copy(r[24:], g.Bytes(8))
+		case 5: // only one byte non-zero, not the first
+			r[1+g.Intn(31)] = byte(1 + g.Intn(255))
+		case 6: // all four words equal
+			copy(r, g.Bytes(8))
+			for i := 8; i < 32; i++ {
+				r[i] = r[i-8]
+			}
+		}
+		if r[31]&0x80 != 0 {
+			continue
+		}
+		rv := leInt(r)
+		if rv.Sign() == 0 || rv.Cmp(refP) >= 0 || new(big.Int).Add(rv, bi1).Cmp(refP) == 0 {
+			continue
+		}
+		y := fmul(fsub(rv, bi1), finv(fadd(rv, bi1)))
+		P, dec := refDecode(leBytes(y, 32))
+		if !dec || !refIsZero(refMul(refL, P)) || refIsZero(P) {
+			continue
+		}
+		kb := g.Bytes(32)
+		sc := refClamp(append(append([]byte{}, kb...), make([]byte, 32)...))
+		t := new(big.Int).ModInverse(new(big.Int).Mod(sc, refL), refL)
+		if t == nil {
+			continue
+		}
+		Q := refMul(t, P)
+		uq := fmul(fadd(bi1, Q.y), finv(fsub(bi1, Q.y)))
+		return kb, leBytes(uq, 32), true
+	}
+	return nil, nil, false
+}
+
 func genX1(g *Gen) {
 	low := x1Low12()
 	lens := []int{0, 1, 16, 31, 32, 32, 32, 33, 63, 64}
@@ -182,6 +247,17 @@ func genX1(g *Gen) {
 			if j == 31 || j%8 == 0 {
 				g.Emit("bp.lookalike", "X1", "x.mult", hx(k), hx(u))
 			}
+		}
+	}
+	// shared secrets with STRUCTURE: (k, u) crafted (with the independent big-integer reference) so that X25519(k, u) is a
+	// chosen non-zero string r whose words cancel in a wrong all-zero test (XOR of the four 64-bit or eight 32-bit words
+	// is 0, bytes sum to 0 mod 256, a single bit, a single non-zero byte/word): the zero check must look at every bit
+	for pat := 0; pat < 7; pat++ {
+		if k, u, ok := x1CraftResult(g, pat); ok {
+			cl := fmt.Sprintf("chk.result.pat%d", pat)
+			g.Emit(cl, "X1", "x.x25519", hx(k), hx(u))
+			g.Emit(cl, "X1", "x.mult", hx(k), hx(u))
+			g.Emit(cl, "X1", "x.dhraw", hx(k), hx(u))
 		}
 	}
 	for !g.Full() {
